@@ -18,8 +18,9 @@ MAXTASKS = 40
 
 BOUNDS = {
     "quick": dict(max_params=4, max_pos=4, max_kw=3, unk_params=3),
-    "thorough": dict(max_params=5, max_pos=4, max_kw=4, unk_params=4),
+    "thorough": dict(max_params=5, max_pos=4, max_kw=4, unk_params=4, six=True),
 }
+# thorough additionally takes every signature with exactly 6 parameters (1 462 of them) with a reduced call alphabet: <= 6 positionals, <= 2 keywords, no star literals
 
 
 def bounds(tier):
@@ -33,7 +34,37 @@ def units(tier):
     out = [("known", tier, i, min(n, i + step)) for i in range(0, n, step)]
     m = len(S.signatures(b["unk_params"]))
     out += [("unk", tier, i, min(m, i + 12)) for i in range(0, m, 12)]
+    if b.get("six"):
+        n6 = len(_six())
+        out += [("six", tier, i, min(n6, i + 40)) for i in range(0, n6, 40)]
     return out
+
+
+_SIX = None
+
+
+def _six():
+    global _SIX
+    if _SIX is None:
+        _SIX = [p for p in S.signatures(6) if len(p) == 6]
+    return _SIX
+
+
+def _run_six(res, tier, lo, hi):
+    sigs = _six()
+    for si in range(lo, hi):
+        params = sigs[si]
+        shapes = S.call_shapes(params, 6, 2, stars=False)
+        hdr = "def f(%s): pass\n" % S.render_params(params)
+        ns = {}
+        exec(hdr, ns)
+        f = ns["f"]
+        src = hdr + "def caller():\n" + "".join("    " + S.render_call("f", sh) + "\n" for sh in shapes)
+        by_line = _check_module(src)
+        res.transitions += 1
+        for j, sh in enumerate(shapes):
+            res.states += 1
+            _judge_known(res, params, sh, f, by_line.get(3 + j, []), order=2 * 10 ** 9 + si * 1000 + j)
 
 
 def _classify_cpy(msg):
@@ -232,6 +263,8 @@ def run_unit(unit):
     res = UnitResult()
     if mode == "known":
         _run_known(res, tier, lo, hi)
+    elif mode == "six":
+        _run_six(res, tier, lo, hi)
     else:
         _run_unk(res, tier, lo, hi)
     return res
